@@ -268,6 +268,9 @@ func (r *Runner) Exec(line string) (lhs string, res string) {
 			}
 		}
 	}()
+	if res, ok := r.ExecBytes(line); ok {
+		return lhs, res
+	}
 	sd := &r.main
 	op := toks[0]
 	if strings.HasPrefix(op, "b.") {
